@@ -347,14 +347,16 @@ impl<'a> HavokBinaryTagFileReader<'a> {
         while byte & 0x80 != 0 {
             byte = self.reader.try_read()?;
 
-            result |= ((byte as u32) & 0xffff_ff7f) << shift;
+            // (a sixth byte would be shifted beyond the 32 bits of the result)
+            result |= ((byte as u32) & 0xffff_ff7f).checked_shl(shift)?;
             shift += 7;
         }
-        Some(if neg == 1 {
-            -(result as HavokInteger)
+        if neg == 1 {
+            // (the magnitude 2^31 has no negative counterpart in a HavokInteger)
+            (result as HavokInteger).checked_neg()
         } else {
-            result as HavokInteger
-        })
+            Some(result as HavokInteger)
+        }
     }
 
     fn find_type(&self, type_name: &str) -> Arc<HavokObjectType> {
